@@ -79,14 +79,25 @@ theorem C05_exactly_once (c : Cfg) (hf : c.fixed) (hok : c.ok = true) (sts : Lis
   have h := (reach hf hok sts s he).task
   exact ⟨h.ranNodup, fun id hid => ⟨h.deadLt id (Or.inl hid), (h.ranExcl id hid).1, (h.ranExcl id hid).2.1⟩⟩
 
+/-- the worker a step belongs to -/
+def workerOf : Step → Option Nat
+  | .enter w | .block w | .wake w | .reenter w | .markDoing w | .runBody w | .postCb w | .finish w | .selfRemove w
+  | .threadEnd w => some w
+  | _ => none
+
 /-- **worker only**: in any state, the only step that executes a task body is a worker's `runBody`
 (never a loop-thread step), and the only step that executes a completion callback is the loop
-thread's `loopRun`. -/
+thread's `loopRun`.  **Thread-safe entry point only**: no step — in particular no worker step — ever writes
+the loop's unlocked, loop-thread-only run-next queue (`nextQ`: Loop::runNext, or Loop::run while the loop is
+not running); whatever a worker hands to the loop (completion callback, its own join) is appended to `loopQ`,
+the queue of Loop::runInLoop, whether or not the loop is running. -/
 theorem C05_worker_only (s : State) (st : Step) :
-    ((step s st).ran ≠ s.ran → ∃ w, st = .runBody w) ∧ ((step s st).cbs ≠ s.cbs → st = .loopRun) := by
+    ((step s st).ran ≠ s.ran → ∃ w, st = .runBody w) ∧ ((step s st).cbs ≠ s.cbs → st = .loopRun) ∧
+    (step s st).nextQ = s.nextQ ∧
+    (∀ w, workerOf st = some w → ∃ items, (step s st).loopQ = s.loopQ ++ items) := by
   cases st
-  case notifyOne ow => cases ow <;> simp [step]
-  all_goals (simp only [step, afterPred]; (repeat' split) <;> simp)
+  case notifyOne ow => cases ow <;> simp [step, workerOf]
+  all_goals (simp only [step, afterPred, workerOf]; (repeat' split) <;> simp)
 
 /-- **callback once, after the body**: a completion callback runs at most once, and only for a task
 whose body has already returned. -/
@@ -195,12 +206,6 @@ theorem C05_max_workers (c : Cfg) (hf : c.fixed) (hok : c.ok = true) (sts : List
   exact ⟨by have := h.len; omega, h.live_le⟩
 
 /-! ### cleanup -/
-
-/-- the worker a step belongs to -/
-def workerOf : Step → Option Nat
-  | .enter w | .block w | .wake w | .reenter w | .markDoing w | .runBody w | .postCb w | .finish w | .selfRemove w
-  | .threadEnd w => some w
-  | _ => none
 
 /-- **no deadlock**: once cleanup() has called notify_all, no worker is blocked: the mutex is free,
 no worker sits in (or just before) the condition-variable wait, and EVERY worker whose thread function
